@@ -31,7 +31,7 @@ RULE = (
 )
 ASSUMPTIONS = [
     "words without a greedy-regex derivation are set aside (class named in the property statement) and counted",
-    "words are at most 6 characters / 4 bytes; parser state budget hits are inconclusive, not violations",
+    "words are at most 8 characters / 4 bytes; parser state budget hits are inconclusive, not violations",
     "binary specs: fixed-width bit fields, ASCII-only regexes (non-ASCII text literals are generated)",
 ]
 
